@@ -70,6 +70,8 @@ def check(run, drv, we, thorough):
             charn = rng.choice([0.012, 0.012, 0.018])
             fmax = rng.choice([0.5, 0.5, 0.8])
             nb = rng.choice([20, 10])
+            grav = rng.choice([9.81, 9.7803, 9.80665, 9.832])      # g of the friction-velocity closed form
+            gz = rng.choice([9.81, 9.81, 9.7803, 9.832])           # g of the Charnock relation (a separate keyword of the library)
             run.count("layout_" + layout)
             run.count("analytic" if analytic else "random")
             em, am, bm = sp.members(e, 1), sp.members(a1, 1), sp.members(b1, 1)
@@ -79,7 +81,8 @@ def check(run, drv, we, thorough):
                     kw, eff = {}, {}
                     for name, val, default in (("fmax", fmax, 0.5), ("directional_spreading_constant", I, 2.5),
                                                ("phillips_constant_beta", beta, 0.012), ("vonkarman_constant", kappa, 0.4),
-                                               ("number_of_bins", nb, 20), ("charnock_constant", charn, 0.012)):
+                                               ("number_of_bins", nb, 20), ("charnock_constant", charn, 0.012),
+                                               ("grav", grav, 9.81), ("gravitational_acceleration", gz, 9.81)):
                         if rng.random() < 0.7:
                             kw[name] = val
                             eff[name] = val
@@ -89,7 +92,9 @@ def check(run, drv, we, thorough):
                     fmax_e, I_e, beta_e, kappa_e, nb_e, charn_e = (eff["fmax"], eff["directional_spreading_constant"],
                                                                    eff["phillips_constant_beta"], eff["vonkarman_constant"],
                                                                    eff["number_of_bins"], eff["charnock_constant"])
-                    out = we.estimate_u10_from_spectrum(spec, method, power=4, grav=G, direction_convention=conv, **kw)
+                    Ge = eff["grav"]         # model and oracles use the effective values
+                    Gz = eff["gravitational_acceleration"]
+                    out = we.estimate_u10_from_spectrum(spec, method, power=4, direction_convention=conv, **kw)
                     us = np.asarray(out["friction_velocity"].values, dtype=float).reshape(-1)
                     dr = np.asarray(out["direction"].values, dtype=float).reshape(-1)
                     u10 = np.asarray(out["u10"].values, dtype=float).reshape(-1)
@@ -100,11 +105,11 @@ def check(run, drv, we, thorough):
                         else:
                             ans = drv.ask(f"wind mean 4 {nb_e} {bits(fmax_e)} {bits_list(f)} {bits_list(em[i])} {bits_list(am[i])} {bits_list(bm[i])}").split()
                         lvl, ma, mb = [float("nan") if t == "nan" else from_bits(t) for t in ans]
-                        mus = from_bits(drv.ask(f"wind ustar {bits(lvl)} {bits(G)} {bits(I_e)} {bits(beta_e)}"))
+                        mus = from_bits(drv.ask(f"wind ustar {bits(lvl)} {bits(Ge)} {bits(I_e)} {bits(beta_e)}"))
                         mdir = from_bits(drv.ask(f"wind dir {bits(ma)} {bits(mb)}")) if ma == ma and mb == mb else float("nan")
                         if conv == "coming_from_clockwise_north" and mdir == mdir:
                             mdir = from_bits(drv.ask(f"wind met {bits(mdir)}"))
-                        mu10 = from_bits(drv.ask(f"wind u10 {bits(kappa_e)} {bits(charn_e)} {bits(G)} {bits(mus)}"))
+                        mu10 = from_bits(drv.ask(f"wind u10 {bits(kappa_e)} {bits(charn_e)} {bits(Gz)} {bits(mus)}"))
                         info = dict(method=method, convention=conv, layout=layout, member=i, analytic=analytic,
                                     f=f.tolist()[:6], e=em[i].tolist()[:6])
 
@@ -127,7 +132,7 @@ def check(run, drv, we, thorough):
                         if analytic and not tail_ok:
                             run.count("analytic_window_outside_tail")
                         if analytic and tail_ok:
-                            want = 8 * math.pi ** 3 * cs[i] / (4 * G * I_e * beta_e)
+                            want = 8 * math.pi ** 3 * cs[i] / (4 * Ge * I_e * beta_e)
                             if abs(us[i] - want) > 1e-9 * want:
                                 run.violation("friction velocity is not 8 pi^3 c / (4 g I beta) for a spectrum with a c f^-4 range",
                                               dict(info, got=float(us[i]), want=want, c=float(cs[i])))
@@ -138,7 +143,7 @@ def check(run, drv, we, thorough):
                                               dict(info, got=float(dr[i]), want=wd))
                         if method == "peak" and not np.isnan(em[i]).all():
                             lev = np.nanmax(np.nan_to_num(em[i]) * f ** 4)
-                            want = 8 * math.pi ** 3 * lev / (4 * G * I_e * beta_e)
+                            want = 8 * math.pi ** 3 * lev / (4 * Ge * I_e * beta_e)
                             if abs(us[i] - want) > 1e-9 * want:
                                 run.violation("peak method: friction velocity is not computed from the maximum of E f^4", dict(info, got=float(us[i]), want=want))
                         if method == "peak" and not np.isnan(em[i]).all():
@@ -148,7 +153,7 @@ def check(run, drv, we, thorough):
                             if abs((dr[i] - wd + 180) % 360 - 180) > 1e-7:
                                 run.violation("peak method: direction is not that of a1/b1 at the bin where E f^4 is largest",
                                               dict(info, got=float(dr[i]), want=wd, bin=istar))
-                        z0 = charn_e * us[i] ** 2 / G
+                        z0 = charn_e * us[i] ** 2 / Gz
                         wu = us[i] / kappa_e * math.log(10 / z0) if us[i] > 0 else float("nan")
                         if us[i] > 0 and abs(u10[i] - wu) > 1e-9 * abs(wu):
                             run.violation("U10 does not follow the log law with the Charnock roughness of u*", dict(info, got=float(u10[i]), want=wu))
@@ -171,12 +176,25 @@ def check(run, drv, we, thorough):
                 s2, m2 = sp.make_2d(rng, layout=layout, f=f2, d=d, nan_rate=0.0, depth_mode="deep")
                 s1 = s2.as_frequency_spectrum()
                 for method in ("peak", "mean"):
-                    o2 = we.estimate_u10_from_spectrum(s2, method, number_of_bins=10)
-                    o1 = we.estimate_u10_from_spectrum(s1, method, number_of_bins=10)
-                    run.case("twoD_eq_oneD", key=(case, method))
-                    for v in ("friction_velocity", "direction", "u10"):
-                        if not np.allclose(np.asarray(o2[v].values, dtype=float), np.asarray(o1[v].values, dtype=float), rtol=1e-12, equal_nan=True):
-                            run.violation("a 2D spectrum and its 1D reduction give different wind estimates", dict(method=method, var=v))
+                    going2 = None
+                    for conv in ("going_to_counter_clockwise_east", "coming_from_clockwise_north", None):
+                        kwc = {} if conv is None else {"direction_convention": conv}
+                        o2 = we.estimate_u10_from_spectrum(s2, method, number_of_bins=10, **kwc)
+                        o1 = we.estimate_u10_from_spectrum(s1, method, number_of_bins=10, **kwc)
+                        run.case("twoD_eq_oneD", key=(case, method, conv))
+                        for v in ("friction_velocity", "direction", "u10"):
+                            if not np.allclose(np.asarray(o2[v].values, dtype=float), np.asarray(o1[v].values, dtype=float), rtol=1e-12, equal_nan=True):
+                                run.violation("a 2D spectrum and its 1D reduction give different wind estimates", dict(method=method, var=v, convention=conv))
+                        d2 = np.asarray(o2["direction"].values, dtype=float).reshape(-1)
+                        if conv == "going_to_counter_clockwise_east":
+                            going2 = d2
+                        else:
+                            # (the default convention is going-to, counter-clockwise from east)
+                            wantd = going2 if conv is None else (270 - going2) % 360
+                            ok = np.isnan(d2) | (np.abs((wantd - d2 + 180) % 360 - 180) <= 1e-7)
+                            if not ok.all():
+                                run.violation("2D input: the coming-from / clockwise-from-north direction is not (270 - going-to direction) mod 360",
+                                              dict(method=method, convention=conv, going=going2.tolist(), got=d2.tolist()))
             if case < 3:
                 run.sample(dict(layout=layout, analytic=analytic, f=f.tolist()[:5], I=I, beta=beta, kappa=kappa, charnock=charn))
 
